@@ -172,7 +172,14 @@ def _sites(p):
 def mutant_cases():
     def mk(ch):
         prog, _b = gen.make_prog(ch, gen.Cfg(general_numbers=ch.int(0, 3) == 0, max_depth=4, macro_bias=1, max_macros=3))
-        return {"prog": prog, "site": ch.int(0, 10**6), "choice": ch.int(0, 5)}
+        force = None
+        if prog["lets"] and ch.int(0, 9) == 0:
+            # integers beyond 2^53: neighbours that a comparison through float() cannot tell apart
+            unused = [l for l in prog["lets"] if l[0] not in gen.int_position_lets(prog)]
+            if unused:
+                ch.pick(unused)[1] = ch.pick([2**53, 2**60 + 6, 10**20, -(2**53) - 2, 2**64])
+                force = "let-value"
+        return {"prog": prog, "site": ch.int(0, 10**6), "choice": ch.int(0, 5), "force": force}
 
     return gen.cases(mk)
 
@@ -215,6 +222,9 @@ def mutants(case):
     sites = _sites(p2)
     if not sites:
         raise Skip()
+    if case.get("force"):
+        forced = [x for x in sites if x[0] == case["force"]]
+        sites = forced or sites
     kind, depth, in_macro, fn = sites[case["site"] % len(sites)]
     if not fn(case["choice"]):
         raise Skip()
